@@ -613,6 +613,18 @@ func run(t *testing.T, h history) (outcome string, viol []finding, states map[st
 
 func keyCtx(h history) string { return h.shape() }
 
+// nUnits: histories are dealt to this many child processes, nShards of them
+// running at a time. The thorough tier uses many short-lived children: a
+// child's memory grows with the number of bubbles it has run (goroutines and
+// mappings left behind by torn-down libp2p/raft instances), and 12 long-lived
+// children were killed by the kernel's OOM killer.
+func nUnits() int {
+	if ev.Thorough() {
+		return 8 * nShards
+	}
+	return nShards
+}
+
 func TestHistories(t *testing.T) {
 	if os.Getenv("C17_DEBUG") != "" {
 		t.Skip()
@@ -620,16 +632,17 @@ func TestHistories(t *testing.T) {
 	hs := enumerate()
 	if ev.ChildUnit() == "" {
 		var units []string
-		for i := 0; i < nShards; i++ {
+		for i := 0; i < nUnits(); i++ {
 			units = append(units, strconv.Itoa(i))
 		}
 		per := 10 * time.Minute
 		if ev.Thorough() {
-			per = 100 * time.Minute
+			per = 40 * time.Minute
 		}
 		sec := R.Sec("histories")
 		sec.Bounds["histories_enumerated"] = len(hs)
-		sec.Bounds["shards"] = nShards
+		sec.Bounds["shards"] = nUnits()
+		sec.Bounds["parallel_children"] = nShards
 		R.RunChildren("TestHistories", units, nShards, per)
 		return
 	}
@@ -637,12 +650,12 @@ func TestHistories(t *testing.T) {
 	sec := R.Sec(fmt.Sprintf("shard-%d", shard))
 	budget := 150 * time.Second
 	if ev.Thorough() {
-		budget = 80 * time.Minute
+		budget = 30 * time.Minute
 	}
 	start := time.Now()
 	done := 0
 	for i, h := range hs {
-		if i%nShards != shard {
+		if i%nUnits() != shard {
 			continue
 		}
 		if time.Since(start) > budget {
@@ -693,7 +706,7 @@ func TestHistories(t *testing.T) {
 		R.Outcome(sec, outcome)
 		R.States(sec, int64(len(states)))
 		R.Transitions(int64(trans))
-		if i < 2*nShards {
+		if i < 2*nUnits() {
 			R.SampleTagged("history", 6, map[string]string{"history": h.String(), "outcome": outcome})
 		}
 		seen := map[string]bool{}
